@@ -192,15 +192,14 @@ Example C11_local_guards_nonvacuous :
 Proof. vm_compute. repeat split; reflexivity. Qed.
 
 (* ---- under the layout hypothesis Laid (see Properties/C06.v: C06_laid_position_clean) *)
-From LH Require Import Proofs.TraverseBindLaid.
+From LH Require Import Proofs.TraverseBindLaid Proofs.TraverseBindSpecLaid Proofs.TraverseBindFinal.
 
 Theorem C11_rename_local_laid_partial : forall P W w f name line col v o,
   in_fragment P = true -> tb_shape P = true -> laid_b W P = true ->
   classA_ok (bind_file P) name = true ->
-  decl_layout_ok (bind_file P) name (v_loc v) = true ->
   resolve_at w f (analyse P) name line col = TLocal v ->
-  In o (bind_file P) -> s_bind o = BLocal (v_loc v) ->
+  In o (bind_file P) -> s_name o = name -> s_bind o = BLocal (v_loc v) ->
   exists l, references_at MRename w f (analyse P) name line col = Some l /\
             forall x, In x l <-> In x (spec_refs [(f, bind_file P)] f o).
-Proof. exact (refs_local_same_var_classA MRename). Qed.
+Proof. exact (refs_local_final MRename). Qed.
 Print Assumptions C11_rename_local_laid_partial.
